@@ -208,6 +208,8 @@ def truth(v):
         return "local"      # needs __bool__/__len__ dispatch by the interpreter
     if isinstance(v, (tuple, list, dict, set, frozenset)):
         return len(v) > 0
+    if isinstance(v, (HeapSet, PinMap, HeapData, PyIter)) or type(v).__name__ == "SDict":
+        raise Unsupported("truthiness of %r must go through truth_of" % (v,))
     return bool(v)
 
 
